@@ -154,7 +154,7 @@ func main() {
 	maxAdd, maxMul, maxDiv := 6, 5, 4
 	extra := []int{16, 31, 32, 33}
 	mulExtra := []int{6, 7}
-	divExtra := []int{}
+	divExtra := []int{6, 7}
 	if *tier == "thorough" {
 		maxAdd, maxMul, maxDiv = 10, 6, 6
 		extra = []int{16, 31, 32, 33, 63, 64, 65, 127, 128, 129, 130}
